@@ -103,8 +103,16 @@ const PSEUDO: &[(&str, &str)] = &[
     ("csrwi 64, 3", "csrrwi x0, 64, 3"), ("csrsi 64, 3", "csrrsi x0, 64, 3"), ("csrci 64, 3", "csrrci x0, 64, 3"), ("jalr t0", "jalr ra, t0, 0"),
 ];
 
+/// statements the manual does not allow: they must be rejected with a parse error, never decoded
+const REJECT: &[&str] = &["lui t0, 0x100000", "lui t0, -1", "lui t0, 1048576", "addi t0, t1", "add t0, t1, 5", "lw t0, 4(5)", "beq t0, t1", "jal 5",
+                          "li t0, 4294967296", "li t0, -2147483649", "li t0, 0x1FFFFFFFF", "addi t0, t0, 0b2", "li t0, 12a"];
+
 pub fn search(_v: &serde_json::Value) -> i32 {
     let mut n = 0;
+    for st in REJECT {
+        n += 1;
+        if let Ok(node) = parse1(st) { println!("witness: {st:?} must be rejected but is decoded as `{}`", describe(&node)); return 1; }
+    }
     let mut check_base = |st: String, want: String| -> Option<String> {
         match parse1(&st) { Err(e) => Some(e), Ok(node) => { let got = describe(&node); if got == want { None } else { Some(format!("{st:?} is decoded as `{got}`, the manual assigns `{want}`")) } } }
     };
